@@ -359,6 +359,11 @@ func (a *a13) checkFunc(f *ssa.Function, rules string) {
 		name := FnName(f) + "/put:" + descr(baseObj(v))
 		// a path that re-executes the instruction defining the object deals with a new object
 		def, _ := baseObj(v).(ssa.Instruction)
+		if ph, isPhi := def.(*ssa.Phi); isPhi && phiCarriesItself(ph) {
+			// a loop-carried variable (`var e *Event; for … { if e == nil { e = newEvent() }; …; put(e) }`):
+			// executing the phi again hands the SAME object to the next iteration
+			def = nil
+		}
 		redefined := func(x ssa.Instruction) bool { return def != nil && x == def }
 		if has('a') {
 			// (a) use after put
@@ -711,6 +716,38 @@ func sameAddr(a, b ssa.Value, depth int) bool {
 	fb, ok2 := b.(*ssa.FieldAddr)
 	if ok1 && ok2 && fa.Field == fb.Field {
 		return fa.X == fb.X || sameRef(fa.X, fb.X, depth+1)
+	}
+	return false
+}
+
+// phiCarriesItself: the phi's value can flow, through phis only, back into the phi (a variable
+// that keeps its value across loop iterations).
+func phiCarriesItself(ph *ssa.Phi) bool {
+	seen := map[*ssa.Phi]bool{}
+	var walk func(v ssa.Value) bool
+	walk = func(v ssa.Value) bool {
+		q, ok := v.(*ssa.Phi)
+		if !ok {
+			return false
+		}
+		if q == ph {
+			return true
+		}
+		if seen[q] {
+			return false
+		}
+		seen[q] = true
+		for _, e := range q.Edges {
+			if walk(e) {
+				return true
+			}
+		}
+		return false
+	}
+	for _, e := range ph.Edges {
+		if walk(e) {
+			return true
+		}
 	}
 	return false
 }
